@@ -57,7 +57,8 @@ ASSUMPTIONS = [
 Deque = diskcache.Deque
 
 VALUES = [1, 1.0, True, 0, 2, 3, 2.5, 'a', 'b', b'x', (1, 2), (1, 'a'), None]
-LONG_VALUES = ['a' * 40, b'y' * 40, tuple(range(12))]
+# 'r\r\nq\rz...': text with carriage returns, kept in a file by the 'filebacked' kind (text files are opened with newline='')
+LONG_VALUES = ['a' * 40, b'y' * 40, tuple(range(12)), 'r\r\nq\rz' * 8]
 KINDS = ['plain', 'filebacked', 'fanout', 'django']
 STREAMS = ['valid', 'malformed']
 CMP_OPS = ['eq', 'ne', 'lt', 'gt', 'le', 'ge']
@@ -68,7 +69,7 @@ ADDING = {'append', 'appendleft', 'extend', 'extendleft', 'iadd'}
 INDEXED = {'getitem', 'setitem', 'delitem'}
 FILE_MIN = 8            # disk_min_file_size of the 'filebacked' kind
 # values at and above the DEFAULT file threshold (32 KiB): file-backed in a plain Deque and in FanoutCache.deque / DjangoCache.deque
-BIG_VALUES = ['L' * 32768, 'm' * 40000, b'N' * 33000, ('big', 'o' * 33000)]
+BIG_VALUES = ['L' * 32768, 'm' * 40000, b'N' * 33000, ('big', 'o' * 33000), 'c\r\nd\re' * 7000]
 # kinds 'fanout+<policy>' / 'django+<policy>': the parent FanoutCache / DjangoCache is CONSTRUCTED with that eviction policy and this
 # size limit (two shards; one shard's share is a little above the volume of an empty cache)
 POLICIES = ['least-recently-stored', 'least-recently-used', 'least-frequently-used', 'none']
